@@ -321,6 +321,19 @@ func runChain(ctx *hx.Ctx, spec *cg.Spec, stop int, only string) {
 			hx.Fatal("view: %v", err)
 		}
 		m := &mctx{c: c, st: st, parent: st.Parent, view: view, num: st.Block.Header().Number(), key: c.Masters[st.Proposer], r: c.R.Fork(uint64(hgt))}
+		// the protocol's base-fee formula (independent reference) on the valid chain itself: a block whose base fee departs
+		// from it breaks rule 11, and it is accepted by the validators below
+		if ref, got := cg.RefBaseFee(st.Parent.Header, c.Fork), st.Block.Header().BaseFee(); (ref == nil) != (got == nil) || (ref != nil && ref.Cmp(got) != 0) {
+			fail("rule-breaking-block-accepted:base-fee-formula", fmt.Sprintf("block #%d packed and accepted by the validators carries base fee %v, the protocol formula gives %v "+
+				"(parent gas limit %d, gas used %d, base fee %v)", hgt, got, ref, st.Parent.Header.GasLimit(), st.Parent.Header.GasUsed(), st.Parent.Header.BaseFee()), hgt, "", true)
+			return
+		}
+		if bf := st.Block.Header().BaseFee(); bf != nil && bf.Cmp(new(big.Int).SetUint64(thor.InitialBaseFee)) > 0 {
+			ctx.Cov.Count("blocks-with-base-fee-above-floor")
+		}
+		if st.Parent.Header.GasLimit()%100 != 0 && st.Block.Header().BaseFee() != nil {
+			ctx.Cov.Count("post-galactica-parent-with-non-round-gas-limit")
+		}
 		// the identity plan must reproduce the packer's block (validates the mutant builder itself)
 		if rb, _, err := c.Build(st.Parent, m.base()); err != nil || rb.Header().ID() != st.Block.Header().ID() {
 			hx.Fatal("the block re-builder does not reproduce the packer's block at #%d (%v): generator broken", hgt, err)
@@ -511,7 +524,7 @@ func main() {
 		runChain(ctx, rp.Spec, rp.Height, only)
 		ctx.Finish("replay", assumptions)
 	}
-	if dir := os.Getenv("VERIF_CORPUS"); dir != "" {
+	if dir := os.Getenv("VERIF_CORPUS"); dir != "" && !cg.IsWorker() {
 		files, _ := filepath.Glob(filepath.Join(dir, "*.json"))
 		sort.Strings(files)
 		for _, f := range files {
@@ -523,8 +536,17 @@ func main() {
 	}
 	r := hx.NewRand(ctx.Seed)
 	n := ctx.Scale(110, 1500)
+	if ctx.Thorough() && !cg.IsWorker() {
+		// bounded memory per process (see chaingen/shard.go) and parallel shards
+		cg.RunShards(ctx, n, 100, 6)
+		ctx.Finish(rule, assumptions)
+	}
 	for i := 0; i < n && len(ctx.Violations) == 0; i++ {
-		runChain(ctx, cg.GenSpec(r.Fork(uint64(i)), 12), 0, "")
+		rr := r.Fork(uint64(i))
+		if !cg.InShard(i) {
+			continue
+		}
+		runChain(ctx, cg.GenSpec(rr, 12), 0, "")
 	}
 	ctx.Finish(rule, assumptions)
 }
